@@ -1506,6 +1506,10 @@ func c4EmptyInsertProbe(ctx *core.Ctx, t c4dictType) {
 	default:
 		ctx.Hist("dict.empty-insert", "returns")
 	}
+	if hung := cctx.Err() != nil; hung || err == nil { // round 6: termination predicted by the mirror of init (c04_dicttable.go)
+		init := [][]byte{c4Value(t.k, rand.New(rand.NewSource(1)), 2), c4Value(t.k, rand.New(rand.NewSource(2)), 2)}
+		c4EmptyInsertMirror(ctx, t, init, map[bool]string{true: "hang", false: "returns"}[hung])
+	}
 }
 
 // ------------------------------------------------------------------ corpus + driver of the sub-check
